@@ -1,6 +1,7 @@
 import QuiverModel.Lemmas.Exec.Error
 import QuiverModel.Lemmas.Exec.SysBridge
 import QuiverModel.Lemmas.Exec.FailChain
+import QuiverModel.Lemmas.Exec.QueueOrder
 /-
 C15 — Failures are contained and propagate only to awaiters; workers never crash. Property theorems
 only (`C15.<name>`); model: Core/Exec/Error.lean on top of Core/Exec/Select.lean; helper lemmas:
@@ -691,6 +692,36 @@ theorem stale_report_closes_newer_pending_await (s : Sys) (a t u : Pid) (w wa : 
   · simp [Sys.pushCmd, upd_same, mergeAnswer, ainsert, alookup]
   · simp [alookup, htu]
 
+
+/-- the inductive strengthening behind `QueueOrderStatement` -/
+structure QInv (s : Sys) : Prop where
+  r : RInv s
+  ph : PlaceholderLast s
+  nd : EvtKeysNodup s
+  pk : PKInv s
+  al : AwaitLast s
+  rh : RegHome s
+  pn : PendNe s
+
+/-- **Missing lemma 1 is a theorem**: the positional facts about a worker's event queue and the registry facts hold
+in every reachable state (every configuration of the runtime variants). -/
+theorem queue_order : QueueOrderStatement := by
+  refine ⟨QInv, ?_, ?_, ?_⟩
+  · intro s hs
+    have hev : ∀ w, s.evtQ w = [] := hs.evtQ
+    refine ⟨RInv.of_started hs, ?_, ?_, PKInv.of_started hs, ?_, (FInv.of_started hs).aux.regHome, (FInv.of_started hs).aux.pendNe⟩
+    · intro w a t hl; rw [hev w] at hl; cases hl
+    · intro w a rs hm; rw [hev w] at hm; cases hm
+    · intro w a ts hl; rw [hev w] at hl; cases hl
+  · intro s m hr hw _ h
+    exact ⟨hr.micro Rules.current_tame m, h.ph.micro m, h.nd.micro m, h.pk.micro hr hw m, h.al.micro hr h.pk m,
+      h.rh.micro hr m, h.pn.micro hw m⟩
+  · intro s h
+    exact ⟨h.al.order h.r, h.ph.order, h.nd, ⟨h.rh, h.pn⟩⟩
+
+/-- `FailureReachesAwaitersStatement` from the ONE remaining lemma (`CheckedStatement`). -/
+theorem failure_reaches_awaiters_of_checked (hC : CheckedStatement) : FailureReachesAwaitersStatement :=
+  failure_reaches_awaiters_partial queue_order hC
 
 end FailChain
 
